@@ -92,5 +92,11 @@ CLAIMS['C25'] = {
   'note': _TB + 'The host file is a stand-in of symbolic length with logged accesses (content unmodelled); FieldFile.get_buffer/set_buffer and locks by assumed contract; float rounding of the record number abstracted (C03). One defect found and fixed.',
 }
 
+CLAIMS['C37'] = {
+  'text': 'Proof over an enumerated state structure with symbolic key contents: KeyboardBuffer.append/getc/peek behave as a FIFO limited to 15 waiting keys (further keys dropped with a tone), '
+          'the head/tail pointers and the 16 ring slots mirror the waiting keys for every ring alignment, POKE 1050, PEEK(1052) empties the buffer, and ring_set_boundaries(a, b) for all 256 pointer pairs leaves exactly the slots between head and tail waiting with ring memory unchanged.',
+  'note': _TB + 'State structure (consumed entries 16..47, waiting keys 0..16) is enumerated, contents symbolic; the code depends on the consumed count only through its value mod 16 (assumption). Keyboard plumbing and the address arithmetic in machine.Memory are not covered. One defect found and fixed.',
+}
+
 NOT_APPLICABLE = {
 }
